@@ -549,6 +549,62 @@ def handover(t1: bool, t2: bool, a1: bool, a2: bool, ao: bool, b1: bool, b2: boo
     return hx.end(_check_i3(m1, [], "former owner after a leave in the handed-over environment") is True)
 
 
+import ECAgent.Decode as _D
+
+
+class _DecModel(Model, _D.IDecodable):
+    @staticmethod
+    def decode(params):
+        return _DecModel()
+
+
+class _DecAgent(Agent, _D.IDecodable):
+    @staticmethod
+    def decode(params):
+        a = _DecAgent("d%d" % params["agent_index"], params["model"])
+        if params["with1"]:
+            a.add_component(T1(a, params["model"]))
+        if params["with2"]:
+            a.add_component(T2(a, params["model"]))
+        return a
+
+
+def _swap_environment(params):
+    # a decode hook may give the model another environment through the public Model.set_environment()
+    params["model"].set_environment(Environment(params["model"], id="SWAPPED"))
+
+
+class _MemDecoder(_D.Decoder):
+    def __init__(self, data):
+        self.data = data
+
+    def open_file(self, path):
+        return self.data
+
+
+def decoded_model(w1: bool, w2: bool, n: int, swap: bool) -> bool:
+    """
+    pre: 0 <= n <= 2
+    post: _
+    """
+    # a model built by the decoder (optionally with a hook that replaces the environment before the agents are created):
+    # the listings mirror exactly the agents in the model's environment
+    hx.begin()
+    group = {"name": "_DecAgent", "module": __name__, "number": n, "params": {"with1": w1, "with2": w2}}
+    if swap:
+        group["pre_agent_init"] = {"func": "_swap_environment", "module": __name__, "params": {}}
+    data = {"model": {"name": "_DecModel", "module": __name__, "params": {}}, "systems": [], "agents": [group]}
+    m = _MemDecoder(data).decode("m.json")
+    residents = list(m.environment.agents.values())
+    if swap:
+        hx.reach('swapped')
+        if m.environment.id != "SWAPPED":
+            return hx.end(hx.fail("the hook's environment was replaced again"))
+    if len(residents) != n:
+        return hx.end(hx.fail("agents in the decoded model's environment", got=[a.id for a in residents], exp=n, swapped=swap))
+    return hx.end(_check_i3(m, residents, "decoded model") is True)
+
+
 def _two_parts(k):
     import itertools
     out = []
@@ -758,6 +814,8 @@ def obligations(tier):
         X("history", history, parts=_hist_parts(k, ["plain"]), labels=tuple(_LABEL_OF.values()), labels_for=_hist_labels,
           timeout=300, group=6, encoded=enc,
           bounds={"operations": "<= %d over {join, leave, offline attach/detach, resident register (order-preserving), resident deregister}" % k}),
+        X("decoded_model", decoded_model, labels=("swapped",), timeout=300, encoded=enc + (_D.Decoder.decode,),
+          bounds={"agents": "0..2 in one group", "components": "any subset of {T1, T2}"}),
         X("history_sparse_reads", history, parts=[{"ops": "JLAJ", "world": "plain", "read_at": [0, 3]}, {"ops": "JAJLJ", "world": "plain", "read_at": [2, 4]},
                                                  {"ops": "JLAJ", "world": "space", "read_at": [0, 3]}],
           labels=tuple(_LABEL_OF.values()), labels_for=_hist_labels, timeout=300, encoded=enc,
